@@ -259,7 +259,7 @@ def gen_cases(rng, tier):
     cases = [dict(c) for c in CORPUS]
     # (a) transplants: data of X (field / construct / bounds / ring, bare or re-wrapped) moved
     #     into a fresh field or into the field read from Y, a few derivations either side
-    for _ in range(500 if thorough else 200):
+    for _ in range(1800 if thorough else 500):
         pre, n = rand_history(rng, 3, 0.0)
         dst_new = rng.random() < 0.5
         ops = list(pre)
@@ -297,13 +297,13 @@ def gen_cases(rng, tier):
                       "read_via": rng.choice(["direct", "direct", "direct", "symlink", "relative"]),
                       "ops": ops, "write": w, "fam": "transplant"})
     # (b) random histories
-    for _ in range(1300 if thorough else 400):
+    for _ in range(4400 if thorough else 1100):
         ops, n = rand_history(rng, 8, 0.12)
         cases.append({"bases": [rng.choice(BASES), rng.choice(BASES)],
                       "read_via": rng.choice(["direct", "direct", "direct", "symlink", "relative"]),
                       "ops": ops, "write": rand_write(rng, n), "fam": "history"})
     # (c) options: little or no history, the whole option space, every base kind
-    for _ in range(600 if thorough else 200):
+    for _ in range(1800 if thorough else 500):
         ops, n = rand_history(rng, 1, 0.0)
         w = rand_write(rng, n)
         w["harmless"] = rng.randrange(N_HARMLESS)
